@@ -36,7 +36,7 @@ func storesToField(fn *ssa.Function, fv *types.Var) []*ssa.Store {
 
 func ruleC20Files(c *Checker) {
 	const R = "C20.files"
-	c.rule(R, "After the ok edge of every WriteHeader(h), every path to a return passes an append of h.Name (the same header) to Meta.Files; every store to Meta.Files is such an append lying past a WriteHeader ok edge; no function outside the walk writes Meta.Files.", 3)
+	c.rule(R, "After the ok edge of every WriteHeader(h), every path to a return passes an append of h.Name (the same header) to Meta.Files; every store to Meta.Files is such an append lying past a WriteHeader ok edge; no function outside the walk writes Meta.Files; a loaded Meta.Files is only read or appended to — never handed to a function that may reorder it (sort, reverse) or stored through — so the list keeps the order of the writes.", 3)
 	pc := getPackCtx(c, R)
 	if pc == nil {
 		return
@@ -99,6 +99,94 @@ func ruleC20Files(c *Checker) {
 			c.fail(R, p.FuncName(fn), "foreign write to Meta.Files", p.Pos(st.Pos()), "Meta.Files is written outside the walk callback that writes the headers")
 		}
 	}
+	// the list stays in the order of the appends: a loaded Meta.Files is only read (len, index, range,
+	// sub-slice, returned) or is the base of the append — it is never handed to a function (sort.Strings,
+	// slices.Reverse, ...) and no element is stored through it
+	nLoads := 0
+	for _, fn := range p.Funcs {
+		if !p.InModule(fn) {
+			continue
+		}
+		eachInstr(fn, func(in ssa.Instruction) {
+			ld, ok := in.(*ssa.UnOp)
+			if !ok || ld.Op != token.MUL {
+				return
+			}
+			fa, ok := ld.X.(*ssa.FieldAddr)
+			if !ok || fieldOf(fa) != fv {
+				return
+			}
+			nLoads++
+			if why, pos := sliceMutatedThrough(ld, map[ssa.Value]bool{}); why != "" {
+				c.fail(R, p.FuncName(fn), "Meta.Files reordered", p.Pos(pos), "Meta.Files is "+why+": the list no longer names the entries in the order they were written to the slug")
+			}
+		})
+	}
+	if nLoads > 0 {
+		c.pass(R, "-", "Meta.Files only appended to", "-", fmt.Sprintf("%d load(s) of Meta.Files examined", nLoads))
+	}
+}
+
+// sliceMutatedThrough: the slice value (or a sub-slice / copy of the header)
+// is handed to a non-builtin call or has an element stored through it.
+func sliceMutatedThrough(v ssa.Value, seen map[ssa.Value]bool) (string, token.Pos) {
+	if seen[v] {
+		return "", token.NoPos
+	}
+	seen[v] = true
+	refs := v.Referrers()
+	if refs == nil {
+		return "", token.NoPos
+	}
+	for _, r := range *refs {
+		switch x := r.(type) {
+		case *ssa.IndexAddr:
+			if x.X != v {
+				continue
+			}
+			if xr := x.Referrers(); xr != nil {
+				for _, rr := range *xr {
+					if st, ok := rr.(*ssa.Store); ok && st.Addr == ssa.Value(x) {
+						return "modified in place (an element is stored)", st.Pos()
+					}
+				}
+			}
+		case *ssa.Slice:
+			if w, pos := sliceMutatedThrough(x, seen); w != "" {
+				return w, pos
+			}
+		case *ssa.Phi:
+			if w, pos := sliceMutatedThrough(x, seen); w != "" {
+				return w, pos
+			}
+		case *ssa.ChangeType:
+			if w, pos := sliceMutatedThrough(x, seen); w != "" {
+				return w, pos
+			}
+		case *ssa.MakeInterface:
+			if w, pos := sliceMutatedThrough(x, seen); w != "" {
+				return w, pos
+			}
+		case ssa.CallInstruction:
+			cc := x.Common()
+			if b, ok := cc.Value.(*ssa.Builtin); ok {
+				if b.Name() == "copy" && len(cc.Args) > 0 && cc.Args[0] == v {
+					return "overwritten by copy", x.Pos()
+				}
+				continue // append, len, cap
+			}
+			o := calleeObj(x)
+			name := "a function value"
+			if o != nil {
+				name = fullName(o)
+				if objPkgPath(o) == "fmt" || objPkgPath(o) == "strings" || objPkgPath(o) == "reflect" {
+					continue // readers
+				}
+			}
+			return "handed to " + name + ", which may reorder it", x.Pos()
+		}
+	}
+	return "", token.NoPos
 }
 
 // appendsHeaderName: v = append(load Meta.Files, load h.Name).
